@@ -490,6 +490,44 @@ def gen(rng, tier="quick", float_ts=False, dashed_by_id=0.0):
     return spec, mv
 
 
+# ------------------------------------------------------------------------------------------------ arch classes x path presence
+# every value class of the tree architecture the code distinguishes anywhere (RPM_ARCHES: `src`, `nosrc`, `noarch`, a binary
+# arch) crossed with every presence combination of the four paths [general] is computed from
+ARCH_CLASSES = ["src", "nosrc", "noarch", "x86_64"]
+ARCH_PATH_FIELDS = ["packages", "repository", "source_packages", "source_repository"]
+
+
+def set_arch(spec, arch):
+    """the same tree for another architecture (platform and image tables keyed by the old architecture follow)"""
+    old = spec["tree"]["arch"]
+    spec["tree"]["arch"] = arch
+    spec["tree"]["platforms"] = sorted(set(arch if p == old else p for p in spec["tree"]["platforms"]))
+    seen, images = set(), []
+    for p, im in spec["images"]:
+        p = arch if p == old else p
+        if p not in seen and not (p != arch and p.endswith("-" + arch)):
+            seen.add(p)
+            images.append([p, im])
+    spec["images"] = images
+    return spec
+
+
+def gen_arch_paths(rng, tier, i):
+    """case i of the cross product ARCH_CLASSES x 2^4 path presences (all top-level variants get the combination, so that every
+    choice of main variant meets it) -> (spec, main_variant, label)"""
+    arch = ARCH_CLASSES[(i // 16) % len(ARCH_CLASSES)]
+    mask = i % 16
+    spec, mv = gen(rng, tier)
+    set_arch(spec, arch)
+    vals = {"packages": "Packages", "repository": "repo", "source_packages": "SRPMS", "source_repository": "src-repo"}
+    for v in spec["variants"]:
+        for b, f in enumerate(ARCH_PATH_FIELDS):
+            _set_path(v, f, (vals[f] + "/" + v["id"]) if mask & (1 << b) else None)
+    keys = [v["key"] for v in spec["variants"]]
+    mv = None if (i // 64) % 2 == 0 else keys[i % len(keys)]
+    return spec, mv, "%s:%s" % (arch, "".join(f[0] if f.startswith("s") is False else f[7].upper() for f in ARCH_PATH_FIELDS if mask & (1 << ARCH_PATH_FIELDS.index(f))) or "-")
+
+
 # ------------------------------------------------------------------------------------------------ named classes (round-robin)
 def _top(spec):
     return spec["variants"][0]
